@@ -88,6 +88,14 @@ Range::Range(const QString &range, qint64 dataSize)
         // In case of 'last N bytes' range (Ex.: "Range: bytes=-500"),
         // set from to -to and to to -1
         if (fromStr.isEmpty()) {
+            // The last zero bytes ("-0") is not a satisfiable range
+            if (to == 0) {
+                d->from = 1;
+                d->to = 0;
+                d->dataSize = -1;
+                return;
+            }
+
             from = -to;
             to = -1;
         }
